@@ -4,12 +4,10 @@
    (form, x, y, checksum text, payload text); the string layer (split, int()) is tied by
    correspondence only.
 
-   NOT proved here (correspondence + property predicates on the implementation only; see
-   harness/manifest/C20.json): convertbits 8->5->8 round trip, bc32decode (bc32encode b) = b,
-   and hence BCURMulti.parse (encode b) = b.  Theorems whose full form needs them are named
-   ..._partial and take the missing fact as an explicit premise. *)
+   sha256 output is assumed to be a 32-byte string where a theorem says so. *)
 From V Require Import Base.Prelude Base.Ints Base.Lfsr Model.Helper Model.Base58 Model.Bech32
-  Model.Bcur Proofs.Base58P Proofs.PolymodP Proofs.BcurP.
+  Model.Bcur Proofs.Base58P Proofs.PolymodP Proofs.BcurP Proofs.ConvertbitsP Proofs.Bc32P
+  Proofs.Bech32DetectP Proofs.Bc32SubP.
 
 (* ------------------------------------------------------------------ CBOR *)
 
@@ -34,6 +32,32 @@ Theorem C20_cbor_prefix :
 Proof. exact cbor_prefix. Qed.
 Print Assumptions C20_cbor_prefix.
 
+(* ------------------------------------------------------------------ convertbits, bc32 *)
+
+(* 8 -> 5 with padding, then 5 -> 8 without padding, for every byte string *)
+Theorem C20_convertbits_roundtrip :
+  forall d, bytes_ok d ->
+  exists syms, convertbits d 8 5 true = Ok (Some syms) /\ Forall sym5 syms /\
+               convertbits syms 5 8 false = Ok (Some d).
+Proof. exact convertbits_roundtrip. Qed.
+Print Assumptions C20_convertbits_roundtrip.
+
+(* numeric form of the 8 -> 5 regrouping: the 5-bit digits read as one number are the bytes read
+   as one number followed by p < 5 zero pad bits *)
+Theorem C20_convertbits_8_5 :
+  forall d, bytes_ok d ->
+  exists syms p, convertbits d 8 5 true = Ok (Some syms) /\ Forall sym5 syms /\
+    0 <= p < 5 /\ 5 * zlen syms = 8 * zlen d + p /\ val 32 syms = val 256 d * 2 ^ p.
+Proof. exact convertbits_8_5. Qed.
+Print Assumptions C20_convertbits_8_5.
+
+Theorem C20_bc32_roundtrip :
+  forall d, bytes_ok d ->
+  exists s, bc32encode d = Ok s /\ bc32decode s = Ok (Some d) /\ Forall gchar s /\
+            (6 <= length s)%nat.
+Proof. exact bc32_roundtrip. Qed.
+Print Assumptions C20_bc32_roundtrip.
+
 (* ------------------------------------------------------------------ bc32 checksum *)
 
 (* appending the six created symbols makes the polymod equal the constant (bc32: start state
@@ -44,19 +68,27 @@ Theorem C20_checksum_valid :
 Proof. exact checksum_valid. Qed.
 Print Assumptions C20_checksum_valid.
 
-(* Single-symbol substitution is detected at ANY length: method = XOR-linearity of the
-   polymod (Base/Lfsr.v) + injectivity of the zero-input step on 30-bit states (no sweep, no
-   length bound).  Stated on symbol strings: [es] is the difference vector with exactly one
-   non-zero entry.  (Partial: the tie from characters to symbols in bc32decode — lower(),
-   alphabet lookup — is covered by correspondence and by the exhaustive substitution
-   predicate of the harness.) *)
-Theorem C20_bc32_detects_single_partial :
+(* Single-character substitution at ANY length (method: XOR-linearity of the polymod,
+   Base/Lfsr.v, + injectivity of the zero-input step on 30-bit states; no sweep, no length
+   bound).  Text level: if a string that differs from bc32encode d in exactly one character is
+   decoded at all, then the substitution was only a change of case of that letter and the
+   payload is d itself; every other single substitution yields None or an exception. *)
+Theorem C20_bc32_detects_single :
+  forall d s s' x,
+  bytes_ok d -> bc32encode d = Ok s ->
+  length s' = length s -> hamming s s' = 1%nat ->
+  bc32decode s' = Ok (Some x) -> lower s' = s /\ x = d.
+Proof. exact bc32_detects_single_text. Qed.
+Print Assumptions C20_bc32_detects_single.
+
+(* symbol level, any valid symbol string *)
+Theorem C20_bc32_detects_single_symbols :
   forall res es,
   length res = length es -> Forall sym5 es -> weight es = 1%nat ->
   bech32_polymod (0 :: res) = BC32_CONSTANT ->
   bech32_polymod (0 :: xorl res es) <> BC32_CONSTANT.
 Proof. exact bc32_detects_single_symbols. Qed.
-Print Assumptions C20_bc32_detects_single_partial.
+Print Assumptions C20_bc32_detects_single_symbols.
 
 Theorem C20_polymod_single_error :
   forall pre vs es c,
@@ -105,28 +137,47 @@ Proof. exact multi_parse_same_y. Qed.
 Print Assumptions C20_reassembly_same_y.
 
 (* Exact or collision.  Whatever the parts are (other payload, missing trailing parts, mixed,
-   corrupted): if the list is accepted and the first part's checksum text decodes to the
-   SHA-256 of the CBOR wrapping of [d], then the result is [d], or a SHA-256 collision is
-   exhibited.  (Partial: the premise "the checksum text produced by encode decodes to that
-   digest" is bc32decode (bc32encode h) = h, which is not proved here.) *)
-Theorem C20_reassembly_exact_or_collision_partial :
-  forall (sha256 : bytes -> bytes) p ps d cbor d',
-  cbor_encode d = Ok cbor -> zlen d < 4294967296 ->
-  (p_form p = 3 \/ p_form p = 4) ->
-  bc32decode (lower (p_chk p)) = Ok (Some (sha256 cbor)) ->
+   corrupted): if the list is accepted and its first part carries (up to case) the checksum text
+   that encode produces for [d], then the result is [d], or a SHA-256 collision is exhibited. *)
+Theorem C20_reassembly_exact_or_collision :
+  forall (sha256 : bytes -> bytes), (forall x, bytes_ok (sha256 x)) ->
+  forall p ps d enc enc_hash d',
+  bcur_encode sha256 d = Ok (enc, enc_hash) ->
+  (p_form p = 3 \/ p_form p = 4) -> lower (p_chk p) = enc_hash ->
   multi_parse sha256 (p :: ps) = Ok d' ->
-  d' = d \/ exists cbor', cbor' <> cbor /\ sha256 cbor' = sha256 cbor.
-Proof. exact reassembly_exact_or_collision. Qed.
-Print Assumptions C20_reassembly_exact_or_collision_partial.
+  d' = d \/ exists cbor cbor', cbor_encode d = Ok cbor /\ cbor' <> cbor /\
+                               sha256 cbor' = sha256 cbor.
+Proof. exact reassembly_exact_or_collision_full. Qed.
+Print Assumptions C20_reassembly_exact_or_collision.
 
-Theorem C20_bcur_decode_exact_or_collision_partial :
-  forall (sha256 : bytes -> bytes) text c d cbor d',
-  cbor_encode d = Ok cbor -> zlen d < 4294967296 ->
-  bc32decode c = Ok (Some (sha256 cbor)) ->
-  bcur_decode sha256 text (Some c) = Ok (Some d') ->
-  d' = d \/ exists cbor', cbor' <> cbor /\ sha256 cbor' = sha256 cbor /\ bc32decode text = Ok (Some cbor').
-Proof. exact bcur_decode_exact_or_collision. Qed.
-Print Assumptions C20_bcur_decode_exact_or_collision_partial.
+Theorem C20_bcur_decode_exact_or_collision :
+  forall (sha256 : bytes -> bytes), (forall x, bytes_ok (sha256 x)) ->
+  forall text d enc enc_hash d',
+  bcur_encode sha256 d = Ok (enc, enc_hash) ->
+  bcur_decode sha256 text (Some enc_hash) = Ok (Some d') ->
+  d' = d \/ exists cbor cbor', cbor_encode d = Ok cbor /\ cbor' <> cbor /\
+                               sha256 cbor' = sha256 cbor /\ bc32decode text = Ok (Some cbor').
+Proof. exact bcur_decode_exact_or_collision_full. Qed.
+Print Assumptions C20_bcur_decode_exact_or_collision.
+
+(* ------------------------------------------------------------------ parse (encode) *)
+
+(* every payload below 2^32 bytes, every chunk size >= 1 *)
+Theorem C20_multi_roundtrip :
+  forall (sha256 : bytes -> bytes),
+  (forall x, bytes_ok (sha256 x)) -> (forall x, length (sha256 x) = 32%nat) ->
+  forall d m, bytes_ok d -> zlen d < 4294967296 -> 1 <= m ->
+  exists ps, multi_encode sha256 d m true = Ok ps /\ multi_parse sha256 ps = Ok d.
+Proof. exact multi_roundtrip. Qed.
+Print Assumptions C20_multi_roundtrip.
+
+Theorem C20_single_roundtrip :
+  forall (sha256 : bytes -> bytes),
+  (forall x, bytes_ok (sha256 x)) -> (forall x, length (sha256 x) = 32%nat) ->
+  forall d uc, bytes_ok d -> zlen d < 4294967296 ->
+  exists p, single_encode sha256 d uc = Ok p /\ single_parse sha256 p = Ok d.
+Proof. exact single_roundtrip. Qed.
+Print Assumptions C20_single_roundtrip.
 
 (* ------------------------------------------------------------------ non-vacuity *)
 
@@ -145,7 +196,7 @@ Example ex_multi_missing_last :
   (ps <- multi_encode toy_sha [1;2;3;4;5;6;7;8;9;10] 7 true ;;
    multi_parse toy_sha (removelast ps)) = Err.
 Proof. vm_compute. reflexivity. Qed.
-(* the premise of the partial theorems holds on this message *)
+(* the checksum text decodes to the digest on this message *)
 Example ex_premise :
   (c <- cbor_encode [1;2;3;4;5;6;7;8;9;10] ;; e <- bc32encode (toy_sha c) ;; bc32decode e)
   = Ok (Some (toy_sha [74;1;2;3;4;5;6;7;8;9;10])).
